@@ -48,7 +48,11 @@ def run(ctx):
                   'E: readers queue only behind a writer; T: tail pointer; N: every unlinked writer is resumed or '
                   'armed, an unlock that leaves writers resumes somebody; D: reader credits; U: no underflow), '
                   'proved per path over linear pre-state expressions', minimum=32)
+    rgc = ctx.rule('R-GUARDCALLS', 'UniqueGuard / SharedGuard of the shared mutex: mode of every call into the mutex, '
+                   'state transition before the call', minimum=8)
+    from rules import lib_guard
     for cfg, fb in sorted(fbs.items()):
+        lib_guard.check_guard_calls(ctx, fb, rgc)
         lib_order.check(ctx, fb, cfg, WORDS, rw, ro, rc)
         c15_inv.check(ctx, fb, cfg, ri)
         fns = [f for f in fb.fn.values() if f.clsq == SM and f.cfg is not None]
